@@ -8,7 +8,7 @@
     complete / unschedule / heartbeat / deactivation messages are all legal.
 
     [jc s a] = cores of the job of attempt [a]; [is_open a] = its end time is NULL; -1 = SQL NULL is not an instance name. *)
-From HailV Require Import Common.Prelude BatchDB.Model BatchDB.Legal BatchDB.Cores.
+From HailV Require Import Common.Prelude BatchDB.Model BatchDB.Legal BatchDB.Cores BatchDB.MemCores.
 Open Scope Z_scope.
 
 (** A live (pending or active) instance reports its total cores minus the cores of the attempts placed on it that have
@@ -64,6 +64,18 @@ Theorem C10_needs_completions_to_name_an_attempt :
   legal s o /\ ~ names_attempt o /\ bad_free (fst (step s o)).
 Proof. exact attemptless_complete_breaks_formula. Qed.
 Print Assumptions C10_needs_completions_to_name_an_attempt.
+
+(** The driver's in-memory copy around [CALL schedule_job] on a live POOL instance (the pool scheduler has reserved the job's
+    cores in memory before the call): from ANY state, for EVERY answer [rc; delta] of the procedure — rc = 0 and rc = 1
+    alike — the database's new free cores are exactly  old free - cores + delta.  Hence "in-memory = database" is kept by
+    the call iff the driver adds the answered delta on both branches (the in-memory object itself is not modelled: that
+    the real schedule_job does so is checked by the run, oracle clause C10:in-memory-free-cores). *)
+Theorem C10_pool_schedule_delta_exact : forall s b j a i x y s' rc delta,
+  find_job s b j = Some x -> find_inst s i = Some y -> i_pool y = true -> ilive (i_state y) = true ->
+  do_schedule s b j a i = (s', ok [rc; delta]) ->
+  free_of s' i = Some (i_free y - j_cores x + delta) /\ (rc = 0 \/ rc = 1).
+Proof. exact pool_schedule_delta_exact. Qed.
+Print Assumptions C10_pool_schedule_delta_exact.
 
 (** The hypotheses are satisfiable by a history that exercises schedule, duplicate schedule, start, completion, late
     duplicate completion and deactivation. *)
